@@ -143,14 +143,23 @@ pub fn cli(out: &mut Out, dir: &str, file: &GenFile, tt: &TT, rng: &mut Rng, wha
             }
         }
         "urs" => {
-            let a = if rng.chance(0.5) { vec![] } else { rand_lits(rng, n, 1, 2) };
-            if tt.count_with(&a) == 0 { return; }
+            let a = if rng.chance(0.15) { let v = 1 + rng.below(n as usize) as i32; vec![v, -v] } else if rng.chance(0.5) { vec![] } else { rand_lits(rng, n, 1, 2) };
             let k = 1 + rng.below(9);
             let seed = rng.below(1000);
             let mut args = vec!["urs".to_string(), "-s".into(), seed.to_string(), "-n".into(), k.to_string()];
             if !a.is_empty() { args.push("-a".into()); args.extend(s(&a)); }
             let req = format!("CLI {}", args.join(" "));
             out.eval(Some(format!("{text}|{req}")));
+            if tt.count_with(&a) == 0 {
+                // no model contains the assumptions: the command says so (no configuration on its output) and does not crash
+                out.count("cli_urs_unsatisfiable", 1);
+                match run(&model, file, &args) {
+                    Some(o) if o.lines().all(|l| l.split_whitespace().all(|x| x.parse::<i32>().is_err())) => {}
+                    Some(o) => out.fail("cli-urs", &text, &req, &o, "no configuration: no model contains the assumptions"),
+                    None => out.fail("cli-urs", &text, &req, "crash / non-zero exit", "a report that no model contains the assumptions"),
+                }
+                return;
+            }
             match (run(&model, file, &args), run(&model, file, &args)) {
                 (Some(o), Some(o2)) => {
                     if o != o2 { out.fail("cli-urs", &text, &req, "two runs with the same seed differ", "the same sample"); return; }
